@@ -222,6 +222,17 @@ def r6_index_agreement(ctx):
                         src = [e for e in o.events if e[0] == 'call' and e[1] == 'std::iter::Iterator::enumerate']
                         ok = bool(src) and any(s[0] == 'fld' and s[2] == 'bitboards' for s in subterms(src[0][2][0]))
     if not ok and len(somes) == 1:
+        # adapter form interpreted by the engine: Some(from_usize(pos#k)) on the path where element k of bitboards.iter() overlaps the square
+        o = somes[0]
+        v = dict(o.value[4])['0']
+        if v[0] == 'call' and v[1].endswith('Piece::from_usize') and v[2][0][0] == 'pos':
+            k = v[2][0][1]
+            ad = [e for e in o.events if e[0] == 'adapter' and e[2] == ('adapter', k)]
+            el, sqv = ('fld', ('der', ('elem', k)), '0'), ('fld', ('p', 2), '0')
+            hit = any(a[0] == 'bin' and a[1] == 'BitAnd' and {a[2], a[3]} == {el, sqv} and is_true(val) for a, val in o.conds)
+            ok = len(ad) == 1 and ad[0][1] == 'position' and not ad[0][4] and hit and \
+                any(s_[0] == 'fld' and s_[2] == 'bitboards' and s_[1] in (('der', ('p', 1)), ('p', 1)) for s_ in subterms(ad[0][3]))
+    if not ok and len(somes) == 1:
         # the same search written with an adapter: bitboards.iter().position(|bb| bb.overlaps(square)).map(Piece::from_usize)
         o = somes[0]
         v = dict(o.value[4])['0']
